@@ -4,7 +4,7 @@ CONSTANTS
   MinPaths = 1
   MaxPaths = 4
   Outcomes = {"success", "revert", "panic", "failflag", "stuck"}
-  Replies = {"sat_valid", "sat_abstract", "unsat", "unsat_rc1", "unsat_shared", "unknown", "timeout", "garbage", "empty", "nonzero", "crash", "spawnfail"}
+  Replies = {"sat_valid", "sat_abstract", "unsat", "unsat_rc1", "unsat_shared", "unsat_nocore", "unknown", "timeout", "garbage", "empty", "nonzero", "crash", "spawnfail"}
   Replies2 = {"sat_valid", "sat_abstract", "unsat", "unsat_rc1", "unknown", "timeout", "garbage", "empty", "nonzero", "crash", "spawnfail"}
   StuckReplies = {"sat_valid", "sat_abstract", "unsat", "unsat_rc1", "unknown", "timeout", "garbage", "empty", "nonzero", "crash"}
   EarlySet = {TRUE, FALSE}
